@@ -5,6 +5,12 @@ import Reamber.Props.C05
 #print axioms Reamber.BMS.slot_exact
 #print axioms Reamber.BMS.slot_roundtrip
 #print axioms Reamber.BMS.no_merge_no_drop
+#print axioms Reamber.BMS.lineKeys_cover
+#print axioms Reamber.BMS.lineKeys_unique
+#print axioms Reamber.BMS.written_line_denotes
+#print axioms Reamber.BMS.classify_rendered
+#print axioms Reamber.BMS.write_positions
+#print axioms Reamber.BMS.written_slot_time
 #print axioms Reamber.BMS.line_valid
 #print axioms Reamber.BMS.base36_roundtrip
 #print axioms Reamber.BMS.bpm_3f_counterexample
